@@ -335,3 +335,19 @@ Definition run_row (r : option row) (kd : rkind) (a b : value) : youtcome :=
 Inductive fval := FZero (negative : bool) | FBits (bits : Z).
 Definition y_pass_arg (v : fval) : fval := match v with FZero _ => FZero false | FBits b => FBits b end.
 Definition g_pass_arg (v : fval) : fval := v.
+
+(* ------------------------------------------------------------------ r = x op y with r an existing interface variable *)
+
+(** cfg.go (binaryExpr, unaryExpr): when the expression is the right-hand side of a plain assignment
+    the node takes the destination's type ([n.typ = dest.typ]).  For %, << and >> the node's type was
+    set from the left operand beforehand ([n.typ = c0.typ]) and is overwritten by the interface type;
+    the generators rem, shl, shr, neg, bitNot then switch on the kind of that type, find no case for
+    reflect.Interface and install no closure: the run loop stops at the statement.  The other
+    binary operators reach their [isInterface] rows. *)
+Definition ifa_has_closure (o : bop) : bool := match o with Rem | Shl | Shr => false | _ => true end.
+
+Definition select_bin_ifa (o : bop) (k : rkind) : option row :=
+  if ifa_has_closure o then select_bin o k FIface else None.
+
+Definition select_un_ifa (o : uop) (k : rkind) : option row :=
+  match o with Neg | BitNot => None | _ => select_un o k FVar end.
